@@ -126,12 +126,19 @@ class Label(FnContract):
         ser.methods['_disambiguate'] = disambiguate_model(st)
         return Inputs([ser, o], st=st)
 
+    def requires(self, cfg, st):
+        # the main object is the first object ever registered (GlueSerializer.__init__ calls id(obj) on the empty registry),
+        # so '__main__' is free whenever _label is asked about it
+        if cfg['obj'] == 'main':
+            return [('main-object-is-registered-first', z3.Not(z3.Select(st.dom0, z3.StringVal('__main__'))))]
+        return []
+
     def globals_(self, cfg, st):
         return {'hasattr': Builtin('hasattr', lambda I, o, n: n in o.fields), 'type': Builtin('type', lambda I, o: o.fields['__type__'])}
 
     def ensures(self, cfg, st, result):
         if cfg['obj'] == 'main':
-            return [('main-object-is-__main__', result == '__main__' if isinstance(result, str) else False)]
+            return [('main-object-is-__main__', (result == '__main__') if isinstance(result, str) else ((result == z3.StringVal('__main__')) if is_z3(result) and result.sort() == STR else False))]
         if not (is_z3(result) and result.sort() == STR):
             return [('returns-a-name', False)]
         base = st.obj.fields['label'] if cfg['obj'] == 'labelled' else st.obj.fields['__type__'].fields['__name__']
